@@ -71,7 +71,9 @@ class RandomWalksGenerator:
         :return: Pair of tensors ``x, y``. ``x`` contains states. ``y[i]`` is the estimated distance from start state
           to state ``x[i]``.
         """
-        start_state = self.graph.encode_states(start_state or self.graph.central_state)
+        if start_state is None:
+            start_state = self.graph.central_state
+        start_state = self.graph.encode_states(start_state)
         if mode == "classic":
             return self.random_walks_classic(width, length, start_state)
         elif mode == "bfs":
